@@ -56,125 +56,7 @@ def FB.Inv (fb : FB) : Prop :=
   fb.buf.length ≤ fb.cap ∧ (fb.inMem = true → fb.cap ≤ fb.limit ∧ fb.file = [])
     ∧ (fb.inMem = false → fb.cap = Gen.fileBufferBlock ∧ fb.limit < fb.size)
 
-theorem fbGrow_spec (cap limit : Nat) (h : cap < limit) : cap < Gen.fbGrow cap limit ∧ Gen.fbGrow cap limit ≤ limit := by
-  unfold Gen.fbGrow
-  simp only
-  split <;> split <;> simp_all <;> omega
-
-theorem FB.size_content (fb : FB) : fb.size = fb.content.length := by simp [FB.size, FB.content]
-
-/-- under the invariant, "in memory" means exactly "not more than `limit` bytes written" -/
-theorem FB.inMem_iff (fb : FB) (hinv : fb.Inv) : fb.inMem = true ↔ fb.size ≤ fb.limit := by
-  obtain ⟨h1, h2, h3⟩ := hinv
-  cases hm : fb.inMem with
-  | true => have := h2 hm; simp [FB.size, this.2]; omega
-  | false => have := h3 hm; simp; omega
-
-theorem FB.sputc_spec (diskOk : Bool) (fb : FB) (b : UInt8) (hinv : fb.Inv) :
-    (diskOk = true ∨ fb.size + 1 ≤ fb.limit →
-      ∃ fb', fb.sputc diskOk b = some fb' ∧ fb'.Inv ∧ fb'.content = fb.content ++ [b] ∧ fb'.limit = fb.limit)
-    ∧ (diskOk = false → fb.inMem = true → fb.limit < fb.size + 1 → fb.sputc diskOk b = none) := by
-  have hiff := FB.inMem_iff fb hinv
-  obtain ⟨h1, h2, h3⟩ := hinv
-  have hblk : 0 < Gen.fileBufferBlock := by decide
-  unfold FB.sputc
-  by_cases hroom : fb.buf.length < fb.cap
-  · -- room in the put area
-    simp only [hroom, if_true]
-    constructor
-    · intro _
-      refine ⟨_, rfl, ⟨by simp; omega, ?_, ?_⟩, by simp [FB.content], rfl⟩
-      · intro hm; exact h2 hm
-      · intro hm; have := h3 hm; exact ⟨this.1, by simp [FB.size] at this ⊢; omega⟩
-    · intro _ hm hlt
-      exfalso
-      have := h2 hm; simp [FB.size, this.2] at hlt; omega
-  · simp only [hroom, if_false]
-    have hfull : fb.buf.length = fb.cap := by omega
-    unfold FB.overflow
-    cases hm : fb.inMem with
-    | true =>
-      obtain ⟨hcl, hfile⟩ := h2 hm
-      have hsz : fb.size = fb.cap := by simp [FB.size, hfile, hfull]
-      by_cases hsp : fb.cap ≥ fb.limit
-      · -- spill
-        have hspill : Gen.fbSpill fb.buf.length fb.limit = true := by simp [Gen.fbSpill, hfull, hsp]
-        simp only [if_true, hspill]
-        constructor
-        · intro hor
-          have hd : diskOk = true := by
-            rcases hor with h | h
-            · exact h
-            · omega
-          simp only [hd, if_true, Option.map_some]
-          refine ⟨_, rfl, ⟨by simp; omega, by simp, ?_⟩, by simp [FB.content, hfile], rfl⟩
-          intro _; exact ⟨rfl, by simp [FB.size, hfile, hfull]; omega⟩
-        · intro hd _ _
-          simp [hd]
-      · -- grow
-        have hspill : Gen.fbSpill fb.buf.length fb.limit = false := by simp [Gen.fbSpill, hfull]; omega
-        have hg := fbGrow_spec fb.cap fb.limit (by omega)
-        simp only [if_true, hspill, Bool.false_eq_true, if_false, Option.map_some]
-        constructor
-        · intro _
-          refine ⟨_, rfl, ⟨by simp; omega, ?_, by simp [hm]⟩, by simp [FB.content], rfl⟩
-          intro _; exact ⟨hg.2, hfile⟩
-        · intro _ _ hlt; omega
-    | false =>
-      obtain ⟨hc, hlim⟩ := h3 hm
-      simp only [Bool.false_eq_true, if_false]
-      constructor
-      · intro hor
-        have hd : diskOk = true := by
-          rcases hor with h | h
-          · exact h
-          · omega
-        simp only [hd, if_true, Option.map_some]
-        refine ⟨_, rfl, ⟨by simp; omega, by simp [hm], ?_⟩, by simp [FB.content], rfl⟩
-        intro _; exact ⟨hc, by simp [FB.size] at hlim ⊢; omega⟩
-      · intro _ hm' _
-        cases hm'
-
-/-- writing a run of bytes -/
-theorem FB.sputn_spec (diskOk : Bool) : ∀ (bs : Bytes) (fb : FB), fb.Inv →
-    (diskOk = true ∨ fb.size + bs.length ≤ fb.limit →
-      ∃ fb', fb.sputn diskOk bs = (fb', bs.length) ∧ fb'.Inv ∧ fb'.content = fb.content ++ bs ∧ fb'.limit = fb.limit)
-    ∧ (diskOk = false → fb.inMem = true → fb.limit < fb.size + bs.length → (fb.sputn diskOk bs).2 < bs.length) := by
-  intro bs
-  induction bs with
-  | nil =>
-    intro fb hinv
-    refine ⟨fun _ => ⟨fb, rfl, hinv, by simp, rfl⟩, fun _ hm h => ?_⟩
-    exfalso; have := (FB.inMem_iff fb hinv).mp hm; simp at h; omega
-  | cons b rest ih =>
-    intro fb hinv
-    obtain ⟨hok, hfail⟩ := FB.sputc_spec diskOk fb b hinv
-    constructor
-    · intro hor
-      obtain ⟨fb1, hs1, hinv1, hc1, hl1⟩ := hok (by
-        rcases hor with h | h
-        · exact Or.inl h
-        · right; simp at h; omega)
-      have hsz1 : fb1.size = fb.size + 1 := by rw [FB.size_content, hc1, FB.size_content]; simp
-      obtain ⟨fb2, hs2, hinv2, hc2, hl2⟩ := (ih fb1 hinv1).1 (by
-        rcases hor with h | h
-        · exact Or.inl h
-        · right; rw [hsz1, hl1]; simp at h; omega)
-      exact ⟨fb2, by simp [FB.sputn, hs1, hs2], hinv2, by rw [hc2, hc1]; simp, hl2.trans hl1⟩
-    · intro hd hm hlt
-      by_cases h1 : fb.limit < fb.size + 1
-      · simp [FB.sputn, hfail hd hm h1]
-      · obtain ⟨fb1, hs1, hinv1, hc1, hl1⟩ := hok (Or.inr (by omega))
-        have hsz1 : fb1.size = fb.size + 1 := by rw [FB.size_content, hc1, FB.size_content]; simp
-        have hm1 : fb1.inMem = true := (FB.inMem_iff fb1 hinv1).mpr (by rw [hsz1, hl1]; omega)
-        have := (ih fb1 hinv1).2 hd hm1 (by rw [hsz1, hl1]; simp at hlt; omega)
-        simp only [FB.sputn, hs1, List.length_cons]
-        omega
-
 def FB.fresh (limit : Nat) : FB := { limit := limit }
-
-theorem FB.fresh_inv (limit : Nat) : (FB.fresh limit).Inv := by
-  refine ⟨by simp [FB.fresh], fun _ => ⟨by simp [FB.fresh], rfl⟩, fun h => by simp [FB.fresh] at h⟩
 
 /-- a sequence of writes (each must be accepted in full, as the parser requires) -/
 def FB.writes (diskOk : Bool) : FB → List Bytes → Option FB
@@ -187,77 +69,6 @@ def FB.writes (diskOk : Bool) : FB → List Bytes → Option FB
 def fwrites (cfg : PCfg) : Bytes → List Bytes → Option Bytes
   | d, [] => some d
   | d, w :: ws => match fileWrite cfg d w with | none => none | some d' => fwrites cfg d' ws
-
-theorem FB.writes_spec (diskOk : Bool) : ∀ (ws : List Bytes) (fb : FB), fb.Inv → (diskOk = false → fb.inMem = true) →
-    (diskOk = true ∨ fb.size + ws.flatten.length ≤ fb.limit →
-      ∃ fb', fb.writes diskOk ws = some fb' ∧ fb'.Inv ∧ fb'.content = fb.content ++ ws.flatten ∧ fb'.limit = fb.limit)
-    ∧ (diskOk = false → fb.limit < fb.size + ws.flatten.length → fb.writes diskOk ws = none) := by
-  intro ws
-  induction ws with
-  | nil =>
-    intro fb hinv hmem
-    refine ⟨fun _ => ⟨fb, rfl, hinv, by simp, rfl⟩, fun hd h => ?_⟩
-    exfalso; have := (FB.inMem_iff fb hinv).mp (hmem hd); simp at h; omega
-  | cons w ws ih =>
-    intro fb hinv hmem
-    obtain ⟨hok, hfail⟩ := FB.sputn_spec diskOk w fb hinv
-    constructor
-    · intro hor
-      obtain ⟨fb1, hs1, hinv1, hc1, hl1⟩ := hok (by
-        rcases hor with h | h
-        · exact Or.inl h
-        · right; simp only [List.flatten_cons, List.length_append] at h; omega)
-      have hsz1 : fb1.size = fb.size + w.length := by rw [FB.size_content, hc1, FB.size_content]; simp
-      have hmem1 : diskOk = false → fb1.inMem = true := by
-        intro hd
-        rcases hor with h | h
-        · rw [hd] at h; cases h
-        · exact (FB.inMem_iff fb1 hinv1).mpr (by rw [hsz1, hl1]; simp only [List.flatten_cons, List.length_append] at h; omega)
-      obtain ⟨fb2, hs2, hinv2, hc2, hl2⟩ := (ih fb1 hinv1 hmem1).1 (by
-        rcases hor with h | h
-        · exact Or.inl h
-        · right; rw [hsz1, hl1]; simp only [List.flatten_cons, List.length_append] at h; omega)
-      exact ⟨fb2, by simp [FB.writes, hs1, hs2], hinv2, by rw [hc2, hc1]; simp, hl2.trans hl1⟩
-    · intro hd hlt
-      by_cases h1 : fb.limit < fb.size + w.length
-      · have := hfail hd (hmem hd) h1
-        simp only [FB.writes]
-        rcases hsn : fb.sputn diskOk w with ⟨fb', n⟩
-        rw [hsn] at this
-        simp only at this
-        have hne : ¬ n = w.length := by omega
-        simp [hne]
-      · obtain ⟨fb1, hs1, hinv1, hc1, hl1⟩ := hok (Or.inr (by omega))
-        have hsz1 : fb1.size = fb.size + w.length := by rw [FB.size_content, hc1, FB.size_content]; simp
-        have hm1 : fb1.inMem = true := (FB.inMem_iff fb1 hinv1).mpr (by rw [hsz1, hl1]; omega)
-        have := (ih fb1 hinv1 (fun _ => hm1)).2 hd (by rw [hsz1, hl1]; simp only [List.flatten_cons, List.length_append] at hlt; omega)
-        simp [FB.writes, hs1, this]
-
-theorem fwrites_spec (cfg : PCfg) : ∀ (ws : List Bytes) (d : Bytes), (cfg.diskOk = true ∨ d.length ≤ cfg.memLimit) →
-    fwrites cfg d ws =
-      if cfg.diskOk = true ∨ d.length + ws.flatten.length ≤ cfg.memLimit then some (ws.flatten.reverse ++ d) else none := by
-  intro ws
-  induction ws with
-  | nil => intro d h; simp [fwrites, h]
-  | cons w ws ih =>
-    intro d h
-    simp only [fwrites, fileWrite, List.flatten_cons, List.length_append]
-    by_cases hd : cfg.diskOk = true
-    · simp only [hd, Bool.true_or, if_true, true_or]
-      rw [ih _ (Or.inl hd)]
-      simp [hd, List.reverse_append, List.append_assoc]
-    · have hd' : cfg.diskOk = false := by simpa using hd
-      simp only [hd', Bool.false_or, Bool.false_eq_true, false_or]
-      by_cases h1 : d.length + w.length ≤ cfg.memLimit
-      · simp only [h1, decide_true, if_true]
-        rw [ih _ (Or.inr (by simp; omega))]
-        simp only [hd', Bool.false_eq_true, false_or, List.length_append, List.length_reverse]
-        by_cases h2 : d.length + (w.length + ws.flatten.length) ≤ cfg.memLimit
-        · rw [if_pos (by omega), if_pos h2]; simp [List.reverse_append, List.append_assoc]
-        · rw [if_neg (by omega), if_neg h2]
-      · have h2 : ¬ d.length + (w.length + ws.flatten.length) ≤ cfg.memLimit := by omega
-        simp only [h1, decide_false, Bool.false_eq_true, if_false]
-        rw [if_neg h2]
 
 /-! ## `file::close` and the temporary file -/
 
